@@ -11,6 +11,15 @@ NOTE = ("Trusted: CrossHair 0.0.110 + z3, the overlay venv, the environment stub
         "isinstance shim), the harness oracles under /verif/vf. Grammars are a fixed corpus (classes cannot be symbolic); all bounds are in evidence.assumptions.")
 
 CLAIMED = {
+    "C14": dict(
+        text="The real search() loops of random search, (1+1), hill climbing and GP run with the evaluation budget n a symbolic integer, symbolic "
+             "neighbourhood / population sizes and, for GP, a symbolic number of fresh individuals per generation (plus the built-in mutation, elitism, "
+             "novelty and tournament steps); an invocation log is the oracle: the search returns, n <= total < n + batch, total == counter, and no "
+             "check before the last one already met the budget. EvaluationBudget's predicate is decided for symbolic counter and limit up to 10^6, "
+             "AnyOf as a short-circuit disjunction over symbolic members, TargetFitness against a reference stop point over all fitness histories. "
+             "Non-termination shows up as loop-fuel exhaustion and is replayed. Bounds: n <= 6 (thorough 10), sizes <= 3-4.",
+        design_ref="DESIGN.md section 4 (C14)",
+    ),
     "C13": dict(
         text="SequentialEvaluator and ParallelEvaluator (pool replaced by its documented map contract), Individual's fitness cache, both problem classes "
              "(incl. the default multi-objective aggregate with per-component and scalar minimize) and Population run on populations whose size, "
